@@ -745,9 +745,10 @@ def bc_positions(sk, in_loop=False):
 
 
 class _FlowBuild(_Build):
-    def __init__(self, variant, unbraced):
+    def __init__(self, variant, unbraced, header="full"):
         super().__init__(variant)
         self.unbraced = unbraced
+        self.header = header
 
     def wrap(self, stmts):
         if self.unbraced and len(stmts) == 1 and stmts[0][0] not in ("decl",):
@@ -777,12 +778,24 @@ class _FlowBuild(_Build):
                 self.feat.add("nested")
             cn = f"i{n}"
             body = self.build(sk[1], counters + [cn])
-            return [("for", ("decl", "int", cn, lit(0)), ("bin", "<", ("var", cn), lit(2 if counters else 3)), ("pre", "++", cn), self.wrap(body))]
+            init, cond, nxt = ("decl", "int", cn, lit(0)), ("bin", "<", ("var", cn), lit(2 if counters else 3)), ("pre", "++", cn)
+            if self.header == "full":
+                return [("for", init, cond, nxt, self.wrap(body))]
+            self.feat.add("for-" + self.header)
+            if self.header == "no-next":     # the counter moves first thing in the body, so that a continue cannot skip it
+                return [("for", ("decl", "int", cn, lit(-1)), ("bin", "<", ("var", cn), lit(1 if counters else 2)), None, ("block", [("expr", nxt)] + body))]
+            if self.header == "no-cond":
+                return [("for", init, None, nxt, ("block", [("if", ("bin", ">=", ("var", cn), lit(2 if counters else 3)), ("break",), None)] + body))]
+            if self.header == "no-init":
+                return [("block", [init, ("for", None, cond, nxt, self.wrap(body))])]
+            if self.header == "only-cond":
+                return [("block", [("decl", "int", cn, lit(-1)), ("for", None, ("bin", "<", ("var", cn), lit(1 if counters else 2)), None, ("block", [("expr", nxt)] + body))])]
+            raise ValueError(self.header)
         return super().build(sk, counters)
 
 
-def f_case(sk, variant, unbraced, second=None):
-    b = _FlowBuild(variant, unbraced)
+def f_case(sk, variant, unbraced, second=None, header="full"):
+    b = _FlowBuild(variant, unbraced, header)
     body = [("decl", "int", "t", lit(1))] + b.build(sk, []) + [("ret", ("var", "t"))]
     funcs = [func("f", [("int", "a")], "int", body)]
     tot, out = bc_positions(sk)
@@ -813,6 +826,14 @@ def fam_F(tier):
             tot, out = bc_positions(sk)
             if tot == 1 and _has(sk, ("for", "while", "do")) >= 2:
                 yield (f_case, sk, 0, False)
+    # for loops with parts of the header left out
+    for n in range(2, (4 if tier == "quick" else 5) + 1):
+        for sk in flow_skeletons(n):
+            tot, out = bc_positions(sk)
+            if not (1 <= tot <= 2) or not _has(sk, ("for",)):
+                continue
+            for header in ("no-next", "no-cond", "no-init", "only-cond"):
+                yield (f_case, sk, n % 3, False, None, header)
     # a second function after one whose body ends inside a loop nest
     seconds = [("B",), ("C",), ("if", ("B",)), ("seq", ("A",), ("C",)), ("for", ("B",)), ("A",)]
     for n in (1, 2, 3):
@@ -891,9 +912,18 @@ class _NBuild:
         """A statement position: the additional declaration goes here if selected."""
         if self.pos == self.extra_pos:
             self.declare(stack, self.extra_name)
-            out.append(("decl", "int", self.extra_name, lit(777) if self.extra_init else None))
-            out.append(self.atom(("var", self.extra_name)))
-            out.append(("expr", ("asg", "=", ("var", self.extra_name), ("bin", "+", ("var", self.extra_name), lit(5)))))
+            self.extra_here = True
+            if self.extra_init == "array":
+                # a declaration of another type: where a clash slips through, the two variables cannot share a slot unnoticed
+                el = ("idx", ("var", self.extra_name), lit(1))
+                out.append(("decl", ("arr", "int", (2,)), self.extra_name, None))
+                out.append(("expr", ("asg", "=", el, lit(777))))
+                out.append(self.atom(el))
+                out.append(("expr", ("asg", "=", el, ("bin", "+", el, lit(5)))))
+            else:
+                out.append(("decl", "int", self.extra_name, lit(777) if self.extra_init else None))
+                out.append(self.atom(("var", self.extra_name)))
+                out.append(("expr", ("asg", "=", ("var", self.extra_name), ("bin", "+", ("var", self.extra_name), lit(5)))))
         self.pos += 1
 
     def body(self, forest, stack, visible):
@@ -901,6 +931,7 @@ class _NBuild:
         out = []
         self.k += 1
         me = f"b{self.k}"
+        self.extra_here = False
         self.slot(stack, out)
         self.declare(stack, me)
         self.names.append(me)
@@ -908,11 +939,18 @@ class _NBuild:
         out.append(("expr", ("asg", "=", ("var", me), ("bin", "+", ("var", me), lit(1)))))
         vis = visible + [me]
         self.slot(stack, out)
+        mine = self.extra_here
         for st in forest:
             out += self.stmt(st, stack, vis)
+            self.extra_here = False
             self.slot(stack, out)
+            mine = mine or self.extra_here
         for v in vis:
             out.append(self.atom(("var", v)))
+        if mine:
+            # the additional variable is read once more at the end of its scope, after every nested scope has come and gone
+            out.append(self.atom(("idx", ("var", self.extra_name), lit(1)) if self.extra_init == "array" else ("var", self.extra_name)))
+        self.extra_here = False
         return out
 
     def scoped(self, forest, stack, visible, extra_names=()):
@@ -986,7 +1024,7 @@ def n_case(forest, extra_pos, extra_name, two_fn, extra_init=True):
     expect = "reject" if b.redecl else "accept"
     structs = [("SS", [("int", "fld")])]
     cls = _name_class(extra_name, b)
-    return {"fam": "N", "desc": f"{'redeclaration' if b.redecl else 'no-redeclaration'};name={cls}" + ("" if extra_init else ";without-initialiser"), "expect": expect,
+    return {"fam": "N", "desc": f"{'redeclaration' if b.redecl else 'no-redeclaration'};name={cls}" + {True: "", False: ";without-initialiser", "array": ";as-array"}[extra_init], "expect": expect,
             "why": f"additional declaration of '{extra_name}' at position {extra_pos}",
             "prog": {"structs": structs, "globals": [("int", "g0")]},
             "units": [{"funcs": funcs, "entry": "f", "inputs": [({"a": v, "p0": 5}, {"g0": 100}) for v in (0, 1)]}]}
@@ -1034,6 +1072,8 @@ def fam_N(tier):
                         # the same declaration without initialiser: where it is accepted it must start at zero, even if a
                         # sibling scope used the name before
                         yield (n_case, forest, pos, nm, False, False)
+                        if nm != "zz":
+                            yield (n_case, forest, pos, nm, False, "array")
             if nodes <= 2:
                 for pos in range(npos):
                     for nm in ("q0", "lq"):
